@@ -104,7 +104,8 @@ func (e *Enum) Values() ([]Value, error) {
 	if err := e.compile(); err != nil {
 		return nil, err
 	}
-	return e.values, nil
+	// the caller gets a list of its own, not the memory of the rule
+	return append([]Value(nil), e.values...), nil
 }
 
 func (e *Enum) compile() error {
